@@ -6,7 +6,7 @@ import sys
 import threading
 
 
-def explore(runner_a, prog_a, bind_a, runner_b, prog_b, bind_b, stride=1, max_points=4000, include_setup=False):
+def explore(runner_a, prog_a, bind_a, runner_b, prog_b, bind_b, stride=1, max_points=4000, include_setup=False, fresh_parser=False):
     import celpy
     import celpy.celtypes as ct
     from celpy.adapter import json_to_cel, CELJSONEncoder
@@ -39,6 +39,8 @@ def explore(runner_a, prog_a, bind_a, runner_b, prog_b, bind_b, stride=1, max_po
                 count[0] += 1
             return counter
         return None
+    if fresh_parser:
+        celpy.CELParser.CEL_PARSER = None      # the documented reset: both threads start without a parser
     sys.settrace(counter)
     try:
         if include_setup:
@@ -76,6 +78,8 @@ def explore(runner_a, prog_a, bind_a, runner_b, prog_b, bind_b, stride=1, max_po
             finally:
                 sys.settrace(None)
                 paused.set()
+        if fresh_parser:
+            celpy.CELParser.CEL_PARSER = None
         t = threading.Thread(target=run_a)
         t.start()
         paused.wait(10)
